@@ -4,6 +4,7 @@ import (
 	"bytes"
 	"fmt"
 	"go/ast"
+	"go/parser"
 	"go/printer"
 	"go/scanner"
 	"go/token"
@@ -685,7 +686,7 @@ func armTokens(fset *token.FileSet, b *ast.BlockStmt) (toks []string, isIdent []
 	if err := printer.Fprint(&buf, fset, b); err != nil {
 		return nil, nil
 	}
-	src := buf.Bytes()
+	src := canonCommutative(buf.Bytes())
 	lo, hi := 0, len(src)
 	var s scanner.Scanner
 	fs := token.NewFileSet()
@@ -801,11 +802,12 @@ func isAxisWord(name string) bool {
 	if axisOfName(name) != axNone {
 		return true
 	}
-	switch strings.ToLower(name) {
+	l := strings.ToLower(name)
+	switch l {
 	case "rows", "columns", "row", "column", "cols", "col":
 		return true
 	}
-	return false
+	return strings.HasPrefix(l, "horizontal") || strings.HasPrefix(l, "vertical")
 }
 
 func simpleArm(b *ast.BlockStmt) bool {
@@ -869,4 +871,227 @@ func ceilDivIssues(p *core.Prog, pkgs []*packages.Package) (issues []ceilIssue, 
 		}
 	}
 	return
+}
+
+// paired arguments: a call f(…, ax, ay, …) whose two neighbouring parameters are named for the two axes
+// (dx,dy / x,y / width,height) and whose two arguments have the same token shape: the second must be the first
+// with axis words mirrored and every other identifier unchanged (margin.Left, margin.Top — not margin.Left, m.Top).
+type pairIssue struct {
+	Fi   *core.FuncInfo
+	Pos  token.Pos
+	Key  string
+	Text string
+}
+
+func exprTokens(fset *token.FileSet, e ast.Expr) (toks []string, isIdent []bool) {
+	var buf bytes.Buffer
+	if err := printer.Fprint(&buf, fset, e); err != nil {
+		return nil, nil
+	}
+	var s scanner.Scanner
+	fs := token.NewFileSet()
+	f := fs.AddFile("", fs.Base(), buf.Len())
+	s.Init(f, buf.Bytes(), nil, 0)
+	for {
+		_, tok, lit := s.Scan()
+		if tok == token.EOF {
+			break
+		}
+		if tok == token.SEMICOLON && lit == "\n" {
+			continue
+		}
+		if tok == token.IDENT {
+			toks = append(toks, lit)
+			isIdent = append(isIdent, true)
+			continue
+		}
+		if lit != "" {
+			toks = append(toks, lit)
+		} else {
+			toks = append(toks, tok.String())
+		}
+		isIdent = append(isIdent, false)
+	}
+	return
+}
+
+func pairedArgIssues(p *core.Prog, pkgs []*packages.Package, onlyDisplacement bool) (issues []pairIssue, npairs int) {
+	for _, pk := range pkgs {
+		for _, fi := range p.Funcs(pk) {
+			if fi.Decl.Body == nil {
+				continue
+			}
+			info := fi.Pkg.TypesInfo
+			counts := map[string]int{}
+			ast.Inspect(fi.Decl.Body, func(n ast.Node) bool {
+				call, ok := n.(*ast.CallExpr)
+				if !ok {
+					return true
+				}
+				callee := core.CalleeOf(info, call)
+				if callee == nil || callee.Pkg() == nil || !strings.HasPrefix(callee.Pkg().Path(), "oss.terrastruct.com/d2") {
+					return true
+				}
+				sig := callee.Type().(*types.Signature)
+				for i := 0; i+1 < sig.Params().Len() && i+1 < len(call.Args); i++ {
+					a, b := sig.Params().At(i).Name(), sig.Params().At(i+1).Name()
+					if axisOfName(a) != axX || axisOfName(b) != axY {
+						continue
+					}
+					if onlyDisplacement && !(strings.HasPrefix(strings.ToLower(a), "d") && strings.HasPrefix(strings.ToLower(b), "d")) {
+						continue
+					}
+					ta, ia := exprTokens(fi.Pkg.Fset, call.Args[i])
+					tb, ib := exprTokens(fi.Pkg.Fset, call.Args[i+1])
+					if len(ta) != len(tb) || len(ta) < 3 {
+						continue
+					}
+					same := true
+					for k := range ta {
+						if ia[k] != ib[k] || (!ia[k] && ta[k] != tb[k]) {
+							same = false
+						}
+					}
+					if !same {
+						continue
+					}
+					npairs++
+					bad := ""
+					for k := range ta {
+						if !ia[k] || ta[k] == tb[k] {
+							continue
+						}
+						if !(isAxisWord(ta[k]) && isAxisWord(tb[k])) {
+							bad = fmt.Sprintf("%s in the horizontal component but %s in the vertical one", ta[k], tb[k])
+							break
+						}
+					}
+					if bad != "" {
+						key := fmt.Sprintf("pair:%s:%s(%s, %s)", fname(fi), callee.Name(), exprStr(call.Args[i]), exprStr(call.Args[i+1]))
+						counts[key]++
+						if counts[key] > 1 {
+							key = fmt.Sprintf("%s#%d", key, counts[key])
+						}
+						issues = append(issues, pairIssue{fi, call.Pos(), key, bad})
+					}
+				}
+				return true
+			})
+		}
+	}
+	return
+}
+
+// axis twins: two functions of one package whose names differ only by an axis word (getTipWidth/getTipHeight,
+// …X/…Y, …Horizontal/…Vertical) compute the same thing for the two axes: their bodies are the same token
+// sequence with identifiers renamed one-to-one.
+var twinWords = [][2]string{{"Width", "Height"}, {"X", "Y"}, {"Horizontal", "Vertical"}, {"Horizontally", "Vertically"}, {"Left", "Top"}, {"Right", "Bottom"}, {"Row", "Column"}, {"Rows", "Columns"}, {"Dx", "Dy"}, {"W", "H"}}
+
+type twinPair struct {
+	A, B   *core.FuncInfo
+	Mirror bool
+	Why    string
+}
+
+func twinName(name string) []string {
+	var out []string
+	for _, w := range twinWords {
+		for i := 0; i+len(w[0]) <= len(name); i++ {
+			if name[i:i+len(w[0])] != w[0] {
+				continue
+			}
+			// word boundary: next rune is upper case, digit or end; previous is lower case or start
+			j := i + len(w[0])
+			if j < len(name) && name[j] >= 'a' && name[j] <= 'z' {
+				continue
+			}
+			if i > 0 && name[i-1] >= 'A' && name[i-1] <= 'Z' && len(w[0]) == 1 {
+				continue
+			}
+			out = append(out, name[:i]+w[1]+name[j:])
+		}
+	}
+	return out
+}
+
+func axisTwins(p *core.Prog, pkgs []*packages.Package) (pairs []twinPair) {
+	for _, pk := range pkgs {
+		byName := map[string]*core.FuncInfo{}
+		for _, fi := range p.Funcs(pk) {
+			if fi.Decl.Body != nil {
+				byName[fname(fi)] = fi
+			}
+		}
+		for _, fi := range p.Funcs(pk) {
+			if fi.Decl.Body == nil {
+				continue
+			}
+			full := fname(fi)
+			base := fi.Decl.Name.Name
+			prefix := strings.TrimSuffix(full, base)
+			for _, tn := range twinName(base) {
+				other := byName[prefix+tn]
+				if other == nil || other == fi {
+					continue
+				}
+				ta, ia := armTokens(fi.Pkg.Fset, fi.Decl.Body)
+				tb, ib := armTokens(fi.Pkg.Fset, other.Decl.Body)
+				tp := twinPair{A: fi, B: other, Mirror: true}
+				if len(ta) != len(tb) {
+					tp.Mirror, tp.Why = false, fmt.Sprintf("%d tokens against %d", len(ta), len(tb))
+				} else {
+					fwd, bwd := map[string]string{}, map[string]string{}
+					for k := range ta {
+						if ia[k] != ib[k] || (!ia[k] && ta[k] != tb[k]) {
+							tp.Mirror, tp.Why = false, fmt.Sprintf("%s against %s", ta[k], tb[k])
+							break
+						}
+						if !ia[k] {
+							continue
+						}
+						if prev, ok := fwd[ta[k]]; ok && prev != tb[k] {
+							tp.Mirror, tp.Why = false, fmt.Sprintf("%s becomes both %s and %s", ta[k], prev, tb[k])
+							break
+						}
+						if prev, ok := bwd[tb[k]]; ok && prev != ta[k] {
+							tp.Mirror, tp.Why = false, fmt.Sprintf("both %s and %s become %s", prev, ta[k], tb[k])
+							break
+						}
+						fwd[ta[k]], bwd[tb[k]] = tb[k], ta[k]
+					}
+				}
+				pairs = append(pairs, tp)
+			}
+		}
+	}
+	return
+}
+
+// canonCommutative re-parses a printed block and puts the literal operand of every product or sum last
+// (2*x ≡ x*2), so that the token comparison of mirrored code does not depend on operand order.
+func canonCommutative(block []byte) []byte {
+	fs := token.NewFileSet()
+	f, err := parser.ParseFile(fs, "", "package p\nfunc _() "+string(block), 0)
+	if err != nil {
+		return block
+	}
+	ast.Inspect(f, func(n ast.Node) bool {
+		if be, ok := n.(*ast.BinaryExpr); ok && (be.Op == token.MUL || be.Op == token.ADD) {
+			if _, isLit := ast.Unparen(be.X).(*ast.BasicLit); isLit {
+				if _, alsoLit := ast.Unparen(be.Y).(*ast.BasicLit); !alsoLit {
+					be.X, be.Y = be.Y, be.X
+				}
+			}
+		}
+		return true
+	})
+	fd, ok := f.Decls[0].(*ast.FuncDecl)
+	if !ok {
+		return block
+	}
+	var out bytes.Buffer
+	if err := printer.Fprint(&out, fs, fd.Body); err != nil {
+		return block
+	}
+	return out.Bytes()
 }
